@@ -1275,9 +1275,12 @@ func (s *Stage) buildCache(from time.Time) {
 			first = t
 		}
 		path := filepath.Join(s.rootDir, name)
-		if _, ok := s.cache[path]; ok {
-			// Skip it if the file is already in the cache
-			return false
+		if existing, ok := s.cache[path]; ok {
+			// Skip it if the file is already in the cache--unless what is there
+			// came from an earlier record of the log: the latest one counts
+			if existing.state != stateLogged || !existing.logged.Before(t) {
+				return false
+			}
 		}
 		file := &finalFile{
 			path:    path,
